@@ -7,6 +7,7 @@ import (
 	"sync/atomic"
 	"time"
 
+	"github.com/containerd/nri/pkg/adaptation"
 	"github.com/containerd/nri/pkg/api"
 	"google.golang.org/protobuf/proto"
 
@@ -15,7 +16,7 @@ import (
 
 const (
 	poolSize    = 5
-	numFixtures = 3
+	numFixtures = 4
 )
 
 // fixtureSpec: plugin indices by pool position (ascending, so chain order == pool order),
@@ -24,10 +25,16 @@ const (
 var fixtureSpecs = [numFixtures]struct {
 	idx   [poolSize]string
 	order [poolSize]int
+	names [poolSize]string
 }{
-	{[poolSize]string{"10", "20", "30", "40", "50"}, [poolSize]int{0, 1, 2, 3, 4}},
-	{[poolSize]string{"10", "20", "30", "40", "50"}, [poolSize]int{4, 3, 2, 1, 0}},
-	{[poolSize]string{"05", "06", "50", "98", "99"}, [poolSize]int{2, 0, 4, 1, 3}},
+	{[poolSize]string{"10", "20", "30", "40", "50"}, [poolSize]int{0, 1, 2, 3, 4}, baseNames},
+	{[poolSize]string{"10", "20", "30", "40", "50"}, [poolSize]int{4, 3, 2, 1, 0}, baseNames},
+	{[poolSize]string{"05", "06", "50", "98", "99"}, [poolSize]int{2, 0, 4, 1, 3}, baseNames},
+	// twins: pool plugins 1 and 2 (and 3 and 4) register under the same index AND name (two
+	// instances of one plugin binary). They are still two different plugins. Equal indices
+	// leave their relative order to the implementation; the fixture observes it once (see
+	// getFixture) and is only used if it is the registration order.
+	{[poolSize]string{"10", "20", "20", "30", "30"}, [poolSize]int{0, 1, 2, 3, 4}, [poolSize]string{"e", "twin", "twin", "pair", "pair"}},
 }
 
 var baseNames = [poolSize]string{"e", "d", "c", "b", "a"}
@@ -61,6 +68,43 @@ var (
 	idCtr    atomic.Int64
 )
 
+func init() {
+	// This engine does not test timeouts: keep a loaded machine from getting fixture plugins
+	// dropped for slowness (the default request timeout is 2 s).
+	adaptation.SetPluginRequestTimeout(120 * time.Second)
+	adaptation.SetPluginRegistrationTimeout(120 * time.Second)
+}
+
+// dropFixture discards a fixture whose plugins are no longer all attached.
+func dropFixture(n int, f *fixture) {
+	fixMu.Lock()
+	if fixtures[n] == f {
+		fixtures[n] = nil
+	}
+	fixMu.Unlock()
+	go func() {
+		for _, p := range f.plugins {
+			if p != nil && p.Stub != nil {
+				p.Stub.Stop()
+			}
+		}
+		f.rt.Stop()
+	}()
+}
+
+// degraded reports whether a successful request failed to reach every pool plugin (each
+// request is relayed to all five; inactive ones answer with an empty response).
+func (ex *execution) degraded() bool {
+	if ex.err != nil {
+		return false
+	}
+	seen := map[int]bool{}
+	for _, pi := range ex.invoked {
+		seen[pi] = true
+	}
+	return len(seen) != poolSize
+}
+
 func getFixture(n int) (*fixture, error) {
 	fixMu.Lock()
 	defer fixMu.Unlock()
@@ -76,10 +120,10 @@ func getFixture(n int) (*fixture, error) {
 	spec := fixtureSpecs[n]
 	for _, pi := range spec.order {
 		pi := pi
-		p := &fx.Plugin{Name: baseNames[pi], Idx: spec.idx[pi]}
+		p := &fx.Plugin{Name: spec.names[pi], Idx: spec.idx[pi]}
 		p.OnEvent = func(_ context.Context, _ api.Event, pod *api.PodSandbox, _ *api.Container) error {
 			if fx.IsProbe(pod) {
-				w.Seen(p.Name)
+				w.Seen(fmt.Sprintf("pool%d", pi))
 			}
 			return nil
 		}
@@ -107,14 +151,28 @@ func getFixture(n int) (*fixture, error) {
 		if err := rt.Connect(p); err != nil {
 			return nil, fmt.Errorf("fixture %d: connect %s: %w", n, p.Name, err)
 		}
-		if err := rt.WaitActive(w, 10*time.Second, p.Name); err != nil {
+		if err := rt.WaitActive(w, 60*time.Second, fmt.Sprintf("pool%d", pi)); err != nil {
 			return nil, fmt.Errorf("fixture %d: %w", n, err)
 		}
 		f.plugins[pi] = p
 	}
+	// observe the invocation order once: the engine's model assumes chain order == pool order
+	ex := &execution{c: Case{Kind: "stop"}, id: ids{self: fmt.Sprintf("order-probe-%d", n), tgt: map[string]string{}},
+		seenCtr: map[int]*api.Container{}, seenRes: map[int]*api.LinuxResources{}, seenPod: map[int]*api.PodSandbox{}}
+	f.execs.Store(ex.id.self, ex)
+	_, err = rt.A.StopContainer(context.Background(), &api.StopContainerRequest{Pod: &api.PodSandbox{Id: "p"}, Container: &api.Container{Id: ex.id.self}})
+	f.execs.Delete(ex.id.self)
+	if err != nil || fmt.Sprint(ex.invoked) != "[0 1 2 3 4]" {
+		fixtureOrderBad[n] = true
+		return nil, fmt.Errorf("fixture %d: invocation order %v (err %v) is not pool order", n, ex.invoked, err)
+	}
 	fixtures[n] = f
 	return f, nil
 }
+
+// fixtureOrderBad marks fixtures whose observed invocation order is not the pool order
+// (possible only with equal indices); cases drawn for them run on fixture 0 instead.
+var fixtureOrderBad [numFixtures]bool
 
 // lookup records what plugin pi was shown and returns its script (nil = not in the chain).
 func (f *fixture) lookup(id string, pi int, pod *api.PodSandbox, ct *api.Container, r *api.LinuxResources) (*execution, *Script) {
@@ -144,9 +202,23 @@ func (f *fixture) lookup(id string, pi int, pod *api.PodSandbox, ct *api.Contain
 // execute runs the case's request Par times concurrently (distinct ids) and returns the
 // executions.
 func execute(c Case) ([]*execution, error) {
+	fixMu.Lock()
+	if fixtureOrderBad[c.Fixture] {
+		c.Fixture = 0
+	}
+	fixMu.Unlock()
 	f, err := getFixture(c.Fixture)
 	if err != nil {
-		return nil, err
+		fixMu.Lock()
+		bad := fixtureOrderBad[c.Fixture]
+		fixMu.Unlock()
+		if !bad {
+			return nil, err
+		}
+		c.Fixture = 0
+		if f, err = getFixture(0); err != nil {
+			return nil, err
+		}
 	}
 	par := c.Par
 	if par < 1 {
@@ -196,6 +268,12 @@ func execute(c Case) ([]*execution, error) {
 		}()
 	}
 	wg.Wait()
+	for _, ex := range exs {
+		if ex.degraded() {
+			dropFixture(c.Fixture, f)
+			return nil, fmt.Errorf("fixture %d degraded: a request reached only plugins %v", c.Fixture, ex.invoked)
+		}
+	}
 	return exs, nil
 }
 
